@@ -274,6 +274,10 @@ let c03_run (c : ctx) (case : string) : string =
     | ["DEC"; mode; hx] ->
         let (perm, nock) = parse_mode mode in
         string_of_dclass c (dec_class c (nlist_of_hex hx) nock perm)
+    | ["DECW"; mode; hx] ->
+        (* the same input on the build WITHOUT sanitizers: fast_atoi<int> wraps, no UB class *)
+        let (perm, nock) = parse_mode mode in
+        string_of_dclass c (dec_class_gen false c (nlist_of_hex hx) nock perm)
     | ["ENC"; spec] -> string_of_eclass (enc_class c (build_msg c spec))
     | ["REENC"; mode; hx] ->
         let (perm, nock) = parse_mode mode in
